@@ -1320,3 +1320,9 @@ impl SerdeAPI for SpeedLimitTrainSimVec {
         Ok(())
     }
 }
+
+// Verification hook (inert unless built with `--cfg nrel_altrios_verif` or under `cargo kani`).
+#[cfg(any(kani, nrel_altrios_verif))]
+mod verif_hook {
+    include!(concat!(env!("NREL_ALTRIOS_VERIF_DIR"), "/hooks/train__train_config.rs"));
+}
